@@ -560,7 +560,7 @@ struct MetaSys : World {
 	static std::string opname(int i)
 	{
 		const OpDef &d = cfg.ops[i];
-		if (d.code == M_NEW) return fmt("new %s%s -> slot %d", kname[d.b], d.c == 1 ? "(count=MAX-1)" : (d.c == 2 ? "(count=2^32+1)" : ""), d.a);
+		if (d.code == M_NEW) return fmt("new %s%s -> slot %d", kname[d.b], d.c == 1 ? "(count=MAX-1)" : (d.c == 2 ? "(count=2^32+1)" : (d.c == 3 ? "(then buffer count=MAX)" : (d.c == 4 ? "(from an array whose buffer count=MAX)" : ""))), d.a);
 		return fmt("%s(%d,%d)", mopn[d.code], d.a, d.b);
 	}
 	~MetaSys() { if (no) { mpt::mpt_notify_fini(no); free(no); } }
@@ -732,6 +732,20 @@ struct MetaSys : World {
 			int bo = add(K_BUF, a._buf, find_block(a._buf));
 			// mpt_meta_buffer itself is replaced by mpt++ (io::buffer::metatype, kind iobuffer) when both libraries are linked;
 			// mpt_meta_arguments is the same C object (bufferRef/bufferUnref/bufferCopy of meta_buffer.c) with another reset
+			if (pre == 4) {
+				// the buffer's counter is at its maximum before the metatype is created from the array: the reference cannot be taken,
+				// the creation has to report that (probe on a throw-away buffer, nothing is kept)
+				const void *blk = objs[bo].block;
+				objs.pop_back();
+				++C.limit; ++C.refused; nontrivial = true;
+				*(uintptr_t *) blk = UMAX;
+				mt = LIB(mpt::mpt_meta_arguments(A(&a)));
+				if (mt) { fail("accepted-unretainable", "mpt_meta_arguments returned a metatype (without the data) although the reference to the array's buffer could not be taken"); return -1; }
+				*(uintptr_t *) blk = 1;
+				LIB(mpt::mpt_array_clone(A(&a), 0));
+				if (ledger_is_live(blk)) { fail("leak", "buffer of the refused creation is still allocated"); return -1; }
+				return -2;
+			}
 			size_t bytes = ledger_live_bytes();
 			if (kind == K_METABUF) mt = LIB(mpt::mpt_meta_arguments(A(&a)));
 			else mt = LIB(mpt::io::buffer::metatype::create(A(&a)));
@@ -749,6 +763,7 @@ struct MetaSys : World {
 					if (objs[o].ctr && *objs[o].ctr != 1) objs[o].ctr = 0;
 				}
 			}
+			if (pre == 3) { preset(bo, UMAX); pre = 0; }   // the shared buffer cannot take a further reference
 			break; }
 		case K_REPLY:
 			if (g_reply_shareable < 0) {   // design decision of the implementation: is the metatype handle of a reply context shareable at all
@@ -928,6 +943,15 @@ struct MetaSys : World {
 			int o = so[t], k = objs[o].kind;
 			sig = std::string("clone|") + kname[k];
 			metatype *c = LIB(sl[t]->clone());
+			if ((k == K_METABUF || k == K_IOBUF) && !can_addref(objs[o].holds[0])) {
+				// a copy needs one more reference to the shared buffer, which cannot be taken
+				++C.limit; nontrivial = true;
+				if (!c) { ++C.refused; break; }
+				if (k == K_METABUF) return fail("accepted-unretainable", "clone returned a metatype (without the data) although the reference to the shared buffer could not be taken");
+				int n = add(k, c, find_block(c)); objs[n].holds.push_back(-1); ++C.cleared;   // C++ buffer class: cannot report, the copy is empty
+				++created; sl[s] = c; so[s] = n;
+				break;
+			}
 			bool clonable = k == K_CNT || k == K_GENINFO || k == K_METABUF || k == K_IOBUF || k == K_GENI || k == K_GENR;
 			if (!c) {
 				if (clonable && !(k == K_GENR && objs[o].holds[0] >= 0 && !can_addref(objs[o].holds[0]))) ++C.spurious;
@@ -1294,7 +1318,8 @@ struct MetaSys : World {
 		}
 		for (size_t o = 0; o < objs.size(); ++o) while (!objs[o].dead && objs[o].raw > 0) {
 			dstep = "dropping a raw reference to object #%d"; darg = (int) o;
-			LIB((((metatype *) objs[o].ptr)->unref(), 0));
+			if (objs[o].kind == K_BUF || objs[o].kind == K_REFBUF) LIB((((mpt::buffer *) objs[o].ptr)->unref(), 0));
+			else LIB((((metatype *) objs[o].ptr)->unref(), 0));
 			--objs[o].raw; release(o);
 			if (!checkall()) return false;
 		}
@@ -1506,6 +1531,9 @@ static bool configure(const std::string &job, Tier tier)
 	for (int kind : cfg.kinds) { add_ops(o, M_NEW, S, 0, 0); for (size_t i = o.size() - S; i < o.size(); ++i) o[i].b = kind;
 		if (kpokeable(kind)) { add_ops(o, M_NEW, S, 0, 1); for (size_t i = o.size() - S; i < o.size(); ++i) o[i].b = kind; }
 		// the kinds counted through the C++ refcount wrappers also start at 2^32+1
+		// a text metatype over a shared buffer whose counter is at its limit (after / before the metatype takes its reference)
+		if (kind == K_METABUF || kind == K_IOBUF) { add_ops(o, M_NEW, S, 0, 3); for (size_t i = o.size() - S; i < o.size(); ++i) o[i].b = kind; }
+		if (kind == K_METABUF) { add_ops(o, M_NEW, S, 0, 4); for (size_t i = o.size() - S; i < o.size(); ++i) o[i].b = kind; }
 		if ((kind == K_CXX || kind == K_GENI || kind == K_IOBUF) && k != "mixed") { add_ops(o, M_NEW, S, 0, 2); for (size_t i = o.size() - S; i < o.size(); ++i) o[i].b = kind; } }
 	if (cfg.conv) { add_ops(o, M_CONVREF, S, S); add_ops(o, M_CONVPTR, S, S); add_ops(o, M_CONVNULL, S, 0); }
 	if (cfg.genconv) add_ops(o, M_GENCONV, S, S);
